@@ -1040,6 +1040,11 @@ class GenFunctions(object):
             node -
             ordered_functions -
         """
+        if self.instantiate_scope is None:
+            raise RuntimeError(
+                "'{}' at line {} uses a template parameter but its class "
+                "template has no cxx_template field with an instantiation"
+                .format(node.decl, node.linenumber))
         new = node.clone()
         ordered_functions.append(new)
         self.append_function_index(new)
